@@ -74,12 +74,15 @@ def gen(rng, n_cases):
         metric = METRICS[t % 3]
         if t % 11 == 5 and n <= 40:
             metric = EXTRA_METRICS[(t // 11) % len(EXTRA_METRICS)]
+        scale = float(rng.choice([0.5, 2.0, 3.0, 0.25, 2.0 ** -30, 2.0 ** -40, 2.0 ** 24]))
+        if metric in EXTRA_METRICS and not (0.2 < scale < 4):
+            scale = 0.5         # (data-dependent metrics invert a covariance: extreme units make SciPy's inverse singular)
         yield {"metric": metric, "z": bool(z), "ideal": ideal, "nadir": nadir, "pf": pf, "F": F,
                # another indicator with another metric is alive and has just scored the same points
                "other_metric": METRICS[(t + 1 + rng.randint(2)) % 3] if rng.randint(3) == 0 else None,
                "perm": rng.permutation(n), "shift": np.round(rng.standard_normal(m) * 4) / 4,
                # uniform scaling, down to objectives measured in very small units (powers of two scale exactly)
-               "scale": float(rng.choice([0.5, 2.0, 3.0, 0.25, 2.0 ** -30, 2.0 ** -40, 2.0 ** 24]))}
+               "scale": scale}
 
 
 def case_from_record(rec):
